@@ -11,7 +11,8 @@ EXPLANATION = (
     'iteration, never in the current snapshot (and symmetrically `joined` in the current one); the carried set is replaced only after both differences were '
     'computed and the change published, and the carried snapshot is refreshed together with it; M2 a delta type (joined/left lists) must not travel on a latest-value-only channel (tokio watch), on which a slow or late '
     'subscriber loses intermediate deltas; M3 the two consumers apply `left` only to removals and `joined` only to insertions of their '
-    'live-member maps, on every path of the membership arm, and the forwarder hands every event to both consumers. '
+    'live-member maps, on every path of the membership arm, and the forwarder hands every event to both consumers; M4 a consumer\'s live-member map is changed by nothing else (no other insert / remove / '
+    'clear / retain / reassignment inside the service loop). '
     'NOT decided: chitchat\'s own failure detection; timing.')
 ASSUMPTIONS = ['chitchat publishes complete membership snapshots']
 
@@ -270,6 +271,7 @@ def check_M3(ctx, facts):
             consumers.append(b)
     ctx.floor('C16.M3', 'membership consumers in the store', len(consumers), 2)
     fields = [f['name'] for f in facts.adts[DELTA]['variants'][0]['fields']]
+    all_ops = {}
     for body in sorted(consumers, key=lambda b: b.name):
         flow = Flow(body)
         calls = list(body.calls())
@@ -302,6 +304,7 @@ def check_M3(ctx, facts):
             ctx.ob('C16.M3', '%s|%s|operation' % (name, f), good, site(body, it['cs']),
                    'members in `%s` are only %s live-member state' % (f, 'removed from' if want == 'remove' else 'inserted into') if good else
                    'members in `%s` reach %s (expected only %s): the consumer\'s peer set drifts from the live membership' % (f, sorted({o[0] for o in ops}) or 'no map operation', want))
+            all_ops.setdefault(body.name, []).extend(ops)
             # every iteration applies the operation: from the Some edge of this loop's next() no path reaches the
             # next iteration or leaves the loop without passing an operation
             nxts = [(b, t) for b, t in calls if cname(t) == 'core::iter::traits::iterator::Iterator::next'
@@ -325,6 +328,43 @@ def check_M3(ctx, facts):
                 good2 = body.must_pass([ab], [ib], rets) if ab != ib else True
                 ctx.ob('C16.M3', '%s|%s|every-path' % (name, f), good2, site(body, it['cs']),
                        'the `%s` loop runs on every path through the membership arm' % f if good2 else 'the `%s` list can be skipped' % f)
+    # M4: the consumers' live-member maps are driven ONLY by these events
+    MUT = re.compile(r'(BTreeMap|HashMap)::(insert|remove|remove_entry|clear|retain|extend|drain|append|pop_first|pop_last|split_off|entry|'
+                     r'get_mut|values_mut|iter_mut|extract_if|drain_filter|first_entry|last_entry)$')
+    n_maps = 0
+    for body in sorted(consumers, key=lambda b: b.name):
+        ops = all_ops.get(body.name, [])
+        name = body.name.replace('datacake_eventual_consistency::', '').replace('::{closure#0}', '')
+        roots = set()
+        for kind, b, t in ops:
+            if kind == 'insert':
+                roots |= referent_roots(body, op_local(t['args'][0]))
+        if not roots:
+            ctx.bad('C16.M4', '%s|live-map' % name, site(body), 'the live-member map of this consumer could not be identified (fail closed)')
+            continue
+        n_maps += 1
+        allowed = {id(t) for _k, _b, t in ops}
+        recvs = [b for b, t in body.calls() if cname(t) and re.search(r'recv|StreamExt::next', cname(t))]
+        in_loop = body.reachable_from(recvs) if recvs else set(range(len(body.blocks)))
+        offenders = []
+        for b, t in body.calls():
+            n = cname(t)
+            if n and MUT.search(n) and id(t) not in allowed and t['args'] and op_local(t['args'][0]) is not None \
+                    and referent_roots(body, op_local(t['args'][0])) & roots:
+                offenders.append((last_seg(n), t))
+        for b, _j, s_ in body.assigns():
+            if s_['lhs']['l'] in roots and not s_['lhs']['p'] and b in in_loop:
+                offenders.append(('assignment', s_))
+        for b, t in body.calls():
+            if t['dest']['l'] in roots and not t['dest']['p'] and b in in_loop:
+                offenders.append(('assignment', t))
+        good = not offenders
+        ctx.ob('C16.M4', '%s|only-events-change-the-peer-set' % name, good, site(body, offenders[0][1].get('cs') if offenders else None),
+               'the live-member map is changed only by inserting `joined` and removing `left` members' if good else
+               'the live-member map is also changed by %s outside the joined/left handling: a node the membership layer still reports live is '
+               'dropped from (or a departed one kept in) the consumer\'s peer set; the membership layer publishes a node again only when the '
+               '(id, address) set changes, so replication stops addressing a live peer' % sorted({o[0] for o in offenders}))
+    ctx.floor('C16.M4', 'consumer live-member maps', n_maps, 2)
     # the two hand-over points cannot drop an event
     for hname in ('replication::distributor::TaskDistributor::membership_change', 'replication::poller::ReplicationHandle::membership_change'):
         hb_ = facts.body('datacake_eventual_consistency::' + hname)
